@@ -31,7 +31,8 @@ ROUTES = {"new": "i64", "try_from_i64": "i64", "try_from_u64": "u64", "try_from_
           "smile_u64": "u64", "smile_key": "i64", "any_i64": "i64", "any_u64": "u64", "any_i128": "i128",
           "any_key": "i64", "object_field": "json",
           "json_any": "json", "json_any_key": "json", "json_any_nested": "json", "smile_any": "u64",
-          "smile_i128": "i128", "smile_u128": "u128", "smile_any_u128": "u128", "smile_list_u128": "u128"}
+          "smile_i128": "i128", "smile_u128": "u128", "smile_any_u128": "u128", "smile_list_u128": "u128",
+          "dec_param": "text", "dec_param_opt": "text", "dec_param_seq": "text", "dec_header": "text", "dec_header_opt": "text"}
 
 
 def position(v):
@@ -58,7 +59,7 @@ def samples_in(lo, hi, n, rng):
     return sorted(out)
 
 
-NOT_TOTAL = {"any_i128"}  # acceptance not demanded (see spec/SafeLong.tla)
+NOT_TOTAL = {"any_i128", "smile_i128", "smile_u128", "smile_any_u128", "smile_list_u128"}  # acceptance not demanded (see spec/SafeLong.tla)
 
 
 def judge(route, v, obs, out, extra):
@@ -66,6 +67,11 @@ def judge(route, v, obs, out, extra):
     if "panic" in obs:
         out.violation("C15:%s:panic" % route, "route panicked on %d: %s" % (v, obs["panic"][:80]), extra)
         return "panic"
+    if obs.get("ok") == "absent":
+        # an optional decoder that answers "no value" for a value that is there: neither the value nor an error
+        out.violation("C15:%s:%s" % (route, "swallowed-in-range" if safe else "out-of-range-not-reported"),
+                      "input %d is treated as absent (no error, no value)" % v, extra)
+        return "err"
     if "ok" in obs:
         got = int(obs["ok"])
         if not (V["min"] <= got <= V["max"]):
@@ -206,7 +212,7 @@ def run(tier, seed):
                 "bits per route. Non-trivial = |value| > 2^31; distinct by (route, value)." % nsamp,
         "coverage_by_action": {k: v[1] for k, v in r.coverage.items()}, "trace_lines": len(lines),
         "binding_selftest_rejected_corrupted_trace": bool(bound), "exhaustive": True,
-        "bounds": "30 routes x 67 positions exhaustively in TLC; values inside intervals sampled",
+        "bounds": "35 routes x 67 positions exhaustively in TLC; values inside intervals sampled",
     }
     out.assumptions = ["TLC 1.8.0", "python big-integer arithmetic for exact values and their classification"]
     return out.finish()
